@@ -621,6 +621,10 @@ func c19(r *Report) {
 					}
 				}
 			}
+			if side.fn == "Stream.LogRequest" {
+				// the mark that is logged is the mark of this exchange
+				contextFlagRules(r, "APIRequest", "IsAPIRequest")
+			}
 			r.Decide("path", fmt.Sprintf("(*M/marbl.Stream).%s marks API traffic, and only API traffic, with :api", strings.TrimPrefix(side.fn, "Stream.")), okAPI, "sendHeader(\":api\") on the IsAPIRequest() edge", "the :api mark is missing, unconditional or inverted", f.Pos())
 			r.Decide("table", fmt.Sprintf("(*M/marbl.Stream).%s: every frame it emits has the message's type", strings.TrimPrefix(side.fn, "Stream.")), bad == "" && n > 0, fmt.Sprintf("%d frame sources, all typed %d", n, side.want), "a frame of this message is emitted with the other message type ("+bad+"): the reader files it under the wrong message of the exchange", f.Pos())
 		}
